@@ -1,135 +1,76 @@
 //! C08 — header maps: accepted iff well-formed, every field means what the wire said.
 
+use super::{header_carriers, map_tree, Ex, Scale};
 use crate::gen;
-use crate::mc::{par_partitions, Local, Report, Tier};
-use crate::oracle::{check_decode, Case, Checks, Entry};
-use crate::refcbor::{encodings, DevOpts, Item};
+use crate::mc::{par_partitions, Report};
+use crate::oracle::{Checks, Entry};
+use crate::refcbor::{encodings, hex, DevOpts, Item};
 use crate::refcose::Ty;
 use serde_json::json;
 
 pub const CHECKS: Checks = Checks { iff: true, ..Checks::NONE };
 
-fn bstr_head(n: usize, out: &mut Vec<u8>) {
-    if n < 24 {
-        out.push(0x40 | n as u8)
-    } else if n < 256 {
-        out.push(0x58);
-        out.push(n as u8)
-    } else {
-        out.push(0x59);
-        out.extend_from_slice(&(n as u16).to_be_bytes())
-    }
-}
-
-/// Offer one encoded header map to every carrier position.
-pub fn offer_map(pid: &str, space: &str, map_bytes: &[u8], carriers: u8, checks: &Checks, l: &mut Local) {
-    let mut c = |ty: Ty, entry: Entry, bytes: &[u8]| {
-        check_decode(&Case { pid, space, ty, entry, bytes }, checks, l);
-    };
-    // standalone header
-    c(Ty::Header, Entry::Slice, map_bytes);
-    if carriers >= 3 {
-        // unprotected header of a COSE_Sign1
-        let mut v = vec![0x84, 0x40];
-        v.extend_from_slice(map_bytes);
-        v.extend_from_slice(&[0xf6, 0x40]);
-        c(Ty::Sign1, Entry::Slice, &v);
-        // protected header of a COSE_Sign1
-        let mut v = vec![0x84];
-        bstr_head(map_bytes.len(), &mut v);
-        v.extend_from_slice(map_bytes);
-        v.extend_from_slice(&[0xa0, 0xf6, 0x40]);
-        c(Ty::Sign1, Entry::Slice, &v);
-    }
-    if carriers >= 5 {
-        c(Ty::Protected, Entry::Slice, map_bytes);
-        let mut v = vec![];
-        bstr_head(map_bytes.len(), &mut v);
-        v.extend_from_slice(map_bytes);
-        c(Ty::Protected, Entry::Bstr, &v);
-    }
-}
-
 pub fn run(rep: &Report) -> u64 {
-    let pairs = gen::header_pairs();
-    let enc: Vec<Vec<u8>> = pairs.iter().map(|(k, v)| [k.det(), v.det()].concat()).collect();
-    let depth = rep.tier.pick(3usize, 4usize);
-    rep.bound("map_entries_max", json!(depth));
-    rep.bound("pair_alphabet", json!(pairs.len()));
-    rep.bound("carriers", json!(["Header", "Sign1.unprotected", "Sign1.protected", "ProtectedHeader::from_slice", "ProtectedHeader::from_cbor_bstr"]));
-    rep.set_rule("all ordered sequences (with repetition) of <= N (label,value) pairs from the header pair alphabet, each a complete header map, offered at every carrier position; non-trivial = reference verdict is must-accept or rejects for exactly one broken rule; distinct by input bytes");
+    rep.set_rule("C08: all ordered sequences (with repetition) of <= N (label,value) pairs from the header pair alphabet, each node of the tree a complete header map, offered at every carrier position, plus all encodings within d deviations of small maps; non-trivial = reference verdict is must-accept or rejects for exactly one broken rule; distinct by input bytes");
+    rep.assume("reference header rules (refcose::header_map) are a correct transliteration of RFC 8152 section 3.1 and the property statement");
+    explore(&Ex::own(rep, CHECKS));
+    1000
+}
 
-    // tree: node = sequence of pair indices
-    let mut parts: Vec<Option<usize>> = vec![None];
-    parts.extend((0..pairs.len()).map(Some));
-    let enc_ref = &enc;
-    par_partitions(rep, parts, |p, l| {
-        let mut seq: Vec<usize> = Vec::new();
-        match p {
-            None => {
-                l.state(0);
-                l.sample(|| json!({"space": "c08.maps", "map": "{}", "hex": "a0"}));
-                offer_map("C08", "c08.maps", &[0xa0], 5, &CHECKS, l);
-            }
-            Some(first) => {
-                seq.push(*first);
-                rec(enc_ref, &mut seq, depth, l);
-            }
+pub fn explore(ex: &Ex) {
+    let pairs = gen::header_pairs();
+    let depth = ex.pick(2usize, 3, 4);
+    map_tree(ex, "c08.maps", &pairs, depth, &|map, d, l| {
+        let all = d <= 1 || (d == 2 && ex.scale == Scale::Thorough);
+        for (_name, ty, bytes) in header_carriers(map, all) {
+            ex.decode(l, "c08.maps", ty, Entry::Slice, &bytes);
+        }
+        if d <= 2 {
+            ex.decode(l, "c08.maps", Ty::Protected, Entry::Bstr, &super::wrap_bstr(map));
         }
     });
 
-    // encodings of small maps
-    let d = rep.tier.pick(1usize, 2usize);
-    rep.bound("encoding_deviations_max", json!(d));
+    // every encoding within d deviations of small maps
+    let d = ex.pick(1usize, 1, 2);
+    ex.bound("c08.encodings", "deviations_max", json!(d));
     let small = gen::header_pairs_small();
     let mut maps: Vec<Item> = vec![Item::Map(vec![])];
     for a in &pairs {
         maps.push(Item::Map(vec![a.clone()]));
     }
-    for a in &small {
-        for b in &small {
-            maps.push(Item::Map(vec![a.clone(), b.clone()]));
+    if ex.scale != Scale::Small {
+        for a in &small {
+            for b in &small {
+                maps.push(Item::Map(vec![a.clone(), b.clone()]));
+            }
         }
     }
-    par_partitions(rep, maps, |m, l| {
-        for (lvl, e) in encodings(m, d, &DevOpts::NO_BIGNUM) {
+    for h in gen::header_contents() {
+        maps.push(h);
+    }
+    par_partitions(ex.rep, maps, |m, l| {
+        let dd = if matches!(m, Item::Map(x) if x.len() > 3) { 1 } else { d };
+        for (lvl, e) in encodings(m, dd, &DevOpts::NO_BIGNUM) {
             l.state(lvl as u64);
-            l.count(&format!("encodings.deviations={}", lvl));
+            l.count(&format!("c08.encodings.deviations={}", lvl));
             let b = e.to_bytes();
             if lvl == 1 {
-                l.sample(|| json!({"space": "c08.encodings", "map": format!("{:?}", m), "hex": crate::refcbor::hex(&b)}));
+                l.sample(|| json!({"space": "c08.encodings", "map": format!("{:?}", m), "hex": hex(&b)}));
             }
-            offer_map("C08", "c08.encodings", &b, 3, &CHECKS, l);
+            for (_n, ty, bytes) in header_carriers(&b, false) {
+                ex.decode(l, "c08.encodings", ty, Entry::Slice, &bytes);
+            }
         }
     });
-    if rep.tier == Tier::Thorough {
-        // bignum-encoded integers: verdict unspecified, but must not crash
-        let ms: Vec<Item> = pairs.iter().map(|a| Item::Map(vec![a.clone()])).collect();
-        par_partitions(rep, ms, |m, l| {
-            for (lvl, e) in encodings(m, 1, &DevOpts::ALL) {
+    // bignum-encoded integers: verdict unspecified, but they must not crash and must stay consistent
+    let ms: Vec<Item> = pairs.iter().map(|a| Item::Map(vec![a.clone()])).collect();
+    par_partitions(ex.rep, ms, |m, l| {
+        for (lvl, e) in encodings(m, 1, &DevOpts::ALL) {
+            if e.has_bignum_form() {
                 l.state(lvl as u64);
-                offer_map("C08", "c08.encodings", &e.to_bytes(), 3, &CHECKS, l);
+                l.count("c08.encodings.bignum");
+                ex.decode(l, "c08.bignum", Ty::Header, Entry::Slice, &e.to_bytes());
             }
-        });
-    }
-    1000
-}
-
-fn rec(enc: &[Vec<u8>], seq: &mut Vec<usize>, depth: usize, l: &mut Local) {
-    let mut bytes = vec![0xa0 | seq.len() as u8];
-    for i in seq.iter() {
-        bytes.extend_from_slice(&enc[*i]);
-    }
-    l.state(seq.len() as u64);
-    if seq.len() == 2 {
-        l.sample(|| json!({"space": "c08.maps", "pairs": seq.clone(), "hex": crate::refcbor::hex(&bytes)}));
-    }
-    offer_map("C08", "c08.maps", &bytes, if seq.len() <= 2 { 5 } else { 3 }, &CHECKS, l);
-    if seq.len() < depth {
-        for i in 0..enc.len() {
-            seq.push(i);
-            rec(enc, seq, depth, l);
-            seq.pop();
         }
-    }
+    });
 }
